@@ -5,6 +5,8 @@ CONSTANTS
   MaxRuns = 1
   SharedCache = FALSE
   ReuseInterp = FALSE
+  SharedShellArgs = FALSE
+  Cmds = FALSE
 INVARIANTS NoSharedWrite NoForeignRead Equivalent RegexesAsCompiled
 PROPERTIES Immutable
 CHECK_DEADLOCK FALSE
